@@ -974,6 +974,8 @@ pub struct Gen<'r> {
     pub undefall_emitted: bool,
     /// names of define-generating macros: defined once, never redefined (the generator must know their live shape)
     pub frozen: std::collections::HashSet<String>,
+    /// names defined through the formal of a define-generating macro so far
+    pub generated: Vec<String>,
 }
 
 const KEPT: &[&str] = &[
@@ -993,7 +995,7 @@ const KEPT: &[&str] = &[
 
 impl<'r> Gen<'r> {
     pub fn new(r: &'r mut Rng, o: GenOpts) -> Gen<'r> {
-        Gen { r, uid: 0, o, known: Vec::new(), cond_names: vec!["A".into(), "B".into(), "C".into(), "D".into()], misuse_budget: 0, undefall_emitted: false, frozen: Default::default() }
+        Gen { r, uid: 0, o, known: Vec::new(), cond_names: vec!["A".into(), "B".into(), "C".into(), "D".into()], misuse_budget: 0, undefall_emitted: false, frozen: Default::default(), generated: Vec::new() }
     }
     pub fn fresh(&mut self, p: &str) -> String {
         self.uid += 1;
@@ -1232,10 +1234,17 @@ impl<'r> Gen<'r> {
                     for (i, (_f, d)) in fs.iter().enumerate().take(n) {
                         if name_formal == Some(i) {
                             // this argument becomes the name of a generated definition: a fresh identifier
-                            let g = self.fresh("G");
+                            // ... or, one time in three, a name that an earlier generated definition already carries: the
+                            // table is then edited from inside an expansion (redefinition with another body, the same
+                            // setter usage repeated verbatim, removal) between two usages of that name
+                            let g = if !self.generated.is_empty() && self.r.chance(1, 3) { self.r.pick(&self.generated).clone() } else { self.fresh("G") };
+                            self.known.retain(|x| x.name != g);
                             if let Some(Piece::DefStmt(_, b)) = m.body.as_ref().and_then(|b| b.last()) {
                                 let gm = MacroDef { name: g.clone(), formals: None, body: Some(vec![Piece::Tok(b.clone())]) };
                                 self.known.push(gm);
+                                if !self.generated.contains(&g) {
+                                    self.generated.push(g.clone());
+                                }
                             }
                             v.push(Some(g));
                         } else if d.is_some() && self.r.chance(1, 3) {
